@@ -389,6 +389,26 @@ def check_persistent(which):
                 STUB.__class__.__call__ = orig
         if keys[0] != keys[1] or keys[0] != k1:
             _viol(res, f"persistent {which} {es} seed", "persistent-key-seed", f"persistent key of {es} changes with the hash function")
+    # equal expressions whose constants were spelled as numpy scalars / Python scalars of the same kind
+    import numpy as np
+    x = p.Variable("x")
+    # (pymbolic's own walk mapper only: how pytools' generic KeyBuilder keys numpy scalars is not pymbolic's code)
+    for a, b in [(np.int64(3), 3), (np.float64(1.5), 1.5), (np.bool_(True), True), (np.bool_(False), False), (np.int32(-2), -2),
+                 (np.complex128(2j), 2j)] if which == 0 else []:
+        for mk in (lambda c: p.If(c, p.Sum((x, 1)), x), lambda c: p.Sum((x, c)), lambda c: p.Power(x, c),
+                   lambda c: p.Call(p.Variable("f"), (c,))):
+            ea, eb = mk(a), mk(b)
+            res.path_assertions += 1
+            try:
+                same = ea == eb and hash(ea) == hash(eb)
+                ka, kb = keyfn(ea), keyfn(eb)
+            except Exception as e:  # noqa: BLE001
+                _viol(res, f"persistent {which} numpy constant {type(a).__name__} raises", "persistent-key", f"key of {H.stable_text(eb)} with a {type(a).__name__} constant raised {e!r}")
+                continue
+            if same and ka != kb:
+                _viol(res, f"persistent {which} numpy constant {type(a).__name__} in {H.stable_text(eb)}", "persistent-key",
+                      f"{H.stable_text(eb)} built with the {type(a).__name__} constant {a!r} and with the Python constant {b!r} are "
+                      f"equal and hash-equal but get different persistent keys")
     res.paths = 1
     return res
 
